@@ -358,11 +358,29 @@ Proof.
   - rewrite (symlink_fail_same e t l TOther t' H) by discriminate. exact Hwf.
 Qed.
 
+(* ---- OPEN / Create on the name space ---- *)
+Theorem open_effect : forall creat excl wr t p c t', wf t -> p_open creat excl wr t p = Some (c, t') ->
+  wf t' /\ (c <> TOk -> t' = t) /\
+  (t' = t \/ (c = TOk /\ creat = true /\ kind_at t p = None /\ t' = t ++ [(p, KFile)])).
+Proof.
+  intros creat excl wr t p c t' Hwf H. unfold p_open in H. destruct p as [|p0 p]; [discriminate|].
+  destruct (parent_look t (p0 :: p)) as [[| |]| | |] eqn:Ep; try discriminate;
+    try (inversion H; subst; split; [exact Hwf | split; [reflexivity | left; reflexivity]]).
+  destruct (kind_at t (p0 :: p)) as [[| |]|] eqn:Ek; try discriminate.
+  - destruct (wr || creat); inversion H; subst; (split; [exact Hwf | split; [reflexivity | left; reflexivity]]).
+  - destruct (creat && excl); inversion H; subst; (split; [exact Hwf | split; [reflexivity | left; reflexivity]]).
+  - destruct creat; inversion H; subst.
+    + split; [apply wf_snoc; [exact Hwf | discriminate | exact Ek | apply parent_dir; exact Ep]|].
+      split; [congruence|]. right. repeat split; reflexivity.
+    + split; [exact Hwf | split; [reflexivity | left; reflexivity]].
+Qed.
+
 (* ---- sequences over the whole set of modelled operations ---- *)
 Inductive fsop2 :=
 | OBase (o : fsop)
 | ORename (s d : path) | OPosixRename (s d : path)     (* two requests, one os call on this server *)
-| OLink (s d : path) | OSymlink (empty_target : bool) (l : path).
+| OLink (s d : path) | OSymlink (empty_target : bool) (l : path)
+| OOpen (creat excl wr : bool) (p : path).            (* OpenFile with any flags; Create is OOpen true false true *)
 
 Definition os_op2 (t : tree) (o : fsop2) : option (cat * tree) :=
   match o with
@@ -370,6 +388,7 @@ Definition os_op2 (t : tree) (o : fsop2) : option (cat * tree) :=
   | ORename s d | OPosixRename s d => p_rename t s d
   | OLink s d => p_link t s d
   | OSymlink e l => p_symlink e t l
+  | OOpen cr ex wr p => p_open cr ex wr t p
   end.
 
 Definition client_op2 (t : tree) (o : fsop2) : option (cat * tree) :=
@@ -378,6 +397,7 @@ Definition client_op2 (t : tree) (o : fsop2) : option (cat * tree) :=
   | ORename s d | OPosixRename s d => p_rename t s d
   | OLink s d => p_link t s d
   | OSymlink e l => p_symlink e t l
+  | OOpen cr ex wr p => p_open cr ex wr t p
   end.
 
 Fixpoint run_ops2 (step : tree -> fsop2 -> option (cat * tree)) (t : tree) (ops : list fsop2) : option (list cat * tree) :=
@@ -392,17 +412,18 @@ Fixpoint run_ops2 (step : tree -> fsop2 -> option (cat * tree)) (t : tree) (ops 
 
 Lemma os_op2_wf : forall t o c t', wf t -> os_op2 t o = Some (c, t') -> wf t'.
 Proof.
-  intros t o c t' Hwf H. destruct o as [o|s d|s d|s d|e l]; cbn [os_op2] in H.
+  intros t o c t' Hwf H. destruct o as [o|s d|s d|s d|e l|cr ex wr p]; cbn [os_op2] in H.
   - exact (os_op_wf t o c t' Hwf H).
   - exact (rename_wf t s d c t' Hwf H).
   - exact (rename_wf t s d c t' Hwf H).
   - exact (link_wf t s d c t' Hwf H).
   - exact (symlink_wf e t l c t' Hwf H).
+  - exact (proj1 (open_effect cr ex wr t p c t' Hwf H)).
 Qed.
 
 Lemma client_op2_refines : forall t o r, wf t -> os_op2 t o = Some r -> client_op2 t o = Some r.
 Proof.
-  intros t o r Hwf H. destruct o as [o|s d|s d|s d|e l]; cbn [os_op2 client_op2] in *; try exact H.
+  intros t o r Hwf H. destruct o as [o|s d|s d|s d|e l|cr ex wr p]; cbn [os_op2 client_op2] in *; try exact H.
   apply client_op_refines; assumption.
 Qed.
 
@@ -433,19 +454,3 @@ Proof.
   intros p k [H|[H|[]]]; inversion H; subst; split; try discriminate; reflexivity.
 Qed.
 
-(* ---- OPEN / Create on the name space ---- *)
-Theorem open_effect : forall creat excl wr t p c t', wf t -> p_open creat excl wr t p = Some (c, t') ->
-  wf t' /\ (c <> TOk -> t' = t) /\
-  (t' = t \/ (c = TOk /\ creat = true /\ kind_at t p = None /\ t' = t ++ [(p, KFile)])).
-Proof.
-  intros creat excl wr t p c t' Hwf H. unfold p_open in H. destruct p as [|p0 p]; [discriminate|].
-  destruct (parent_look t (p0 :: p)) as [[| |]| | |] eqn:Ep; try discriminate;
-    try (inversion H; subst; split; [exact Hwf | split; [reflexivity | left; reflexivity]]).
-  destruct (kind_at t (p0 :: p)) as [[| |]|] eqn:Ek; try discriminate.
-  - destruct (wr || creat); inversion H; subst; (split; [exact Hwf | split; [reflexivity | left; reflexivity]]).
-  - destruct (creat && excl); inversion H; subst; (split; [exact Hwf | split; [reflexivity | left; reflexivity]]).
-  - destruct creat; inversion H; subst.
-    + split; [apply wf_snoc; [exact Hwf | discriminate | exact Ek | apply parent_dir; exact Ep]|].
-      split; [congruence|]. right. repeat split; reflexivity.
-    + split; [exact Hwf | split; [reflexivity | left; reflexivity]].
-Qed.
